@@ -39,22 +39,50 @@ def run(run):
     run.rule("R3", "per-message-kind storage: push in send order / insert (last wins) by address; nothing sorted, dropped or deduplicated otherwise")
     run.rule("R4", "CWE476 drains its private channel only after all computations")
 
+    def events(fn, depth=0, outer=()):
+        """('send-terminate'|'send-other'|'join', node, conds) in execution (document) order; calls of crate-local
+        functions are expanded in place (a helper that sends Terminate and hands back the join handle)"""
+        out = []
+
+        def interesting(n):
+            if n.get("k") != "Call":
+                return False
+            if n.get("n") in ("send", "try_send", "send_timeout", "join"):
+                return True
+            g = F.by_path.get(n.get("r") or "") or F.by_path.get(n.get("f") or "")
+            return g is not None and g.get("dk") in ("Fn", "AssocFn")
+        for n, conds in T.paths_to(fn["body"], interesting):
+            cs = list(outer) + [c for c in conds]
+            if n.get("n") in ("send", "try_send", "send_timeout"):
+                term = any(x.get("k") == "Adt" and x.get("v") == "Terminate" for a in n["a"][1:] for x in T.walk(a))
+                out.append(("send-terminate" if term and n["n"] == "send" else "send-other", n, cs))
+            elif n.get("n") == "join" and "thread" in (n.get("f") or ""):
+                out.append(("join", n, cs))
+            elif depth < 2:
+                g = F.by_path.get(n.get("r") or "") or F.by_path.get(n.get("f") or "")
+                if g is not None and g is not fn:
+                    out.extend(events(g, depth + 1, cs))
+        return out
+
     def r1():
         for name, trait in (("collect", ""), ("drop", "Drop")):
             fn = F.fn(name, adt="LogThread", trait=trait)
-            t = S.Sym(F).term(fn["body"])
-            st = stmts_of(t)
             site = F.loc(fn["body"])
-            isend = [i for i, s in enumerate(st) if any(is_call(x, "send") and any(y[0] == "adt" and y[2] == "Terminate" for y in x[2][1:]) for x in S.subterms(s))]
-            ijoin = [i for i, s in enumerate(st) if any(is_call(x, "join") for x in S.subterms(s))]
-            if not ijoin:
+            ev = events(fn)
+            joins = [i for i, e in enumerate(ev) if e[0] == "join"]
+            terms = [i for i, e in enumerate(ev) if e[0] == "send-terminate"]
+            if not joins:
                 run.violated("R1", "%s|joins" % name, "%s() no longer joins the collector thread" % name, site)
                 continue
-            run.check("R1", "%s|terminate-before-join" % name, bool(isend) and isend[0] < ijoin[0] and st[isend[0]][0] != "ite",
+            # unconditional: no branch decision on the way to the send (let-else / `?` would also make it conditional)
+            uncond = bool(terms) and not ev[terms[0]][2]
+            run.check("R1", "%s|terminate-before-join" % name, bool(terms) and terms[0] < joins[0] and uncond,
                       "%s() must send Terminate unconditionally before it joins the collector thread, otherwise join blocks forever or messages sent just before are lost" % name, site)
-            sends = [x for s in st for x in S.subterms(s) if is_call(x, "send")]
-            on_field = all(x[2][0][0] == "field" and x[2][0][2] == "msg_sender" for x in sends)
-            run.check("R1", "%s|terminate-on-own-channel" % name, bool(sends) and on_field, "Terminate must be sent on self.msg_sender", site)
+            sends = [e[1] for e in ev if e[0].startswith("send")]
+            def own(c):
+                r = T.peel(c["a"][0])
+                return r.get("k") == "Field" and r.get("fn") == "msg_sender" and T.is_self(r["e"])
+            run.check("R1", "%s|terminate-on-own-channel" % name, bool(sends) and all(own(c) for c in sends), "Terminate must be sent on self.msg_sender", site)
         fn = F.fn("get_msg_sender", adt="LogThread")
         t = S.value(S.Sym(F).term(fn["body"]))
         run.check("R1", "get_msg_sender|same-channel", t[0] == "field" and t[2] == "msg_sender", "get_msg_sender must hand out a clone of self.msg_sender; found %s" % fmt(t), F.loc(fn["body"]))
@@ -88,24 +116,37 @@ def run(run):
     f_col = F.fn("collect_and_deduplicate", adt="LogThread")
 
     def find_loop(body):
-        loops = [n for n in T.walk(body) if n.get("k") == "Loop"]
-        if len(loops) != 1:
-            raise T.AnchorMissing("expected exactly one loop in collect_and_deduplicate, found %d" % len(loops))
-        return loops[0]
+        """the receive loop: the innermost loop that contains the match over LogThreadMsg"""
+        ms = T.find_matches(body, adt_suffix="LogThreadMsg")
+        loops = [n for n in T.walk(body) if n.get("k") == "Loop" and ms and any(x is ms[0] for x in T.walk(n))]
+        if not loops:
+            raise T.AnchorMissing("no loop around a match over LogThreadMsg in collect_and_deduplicate")
+        return loops[-1]
 
     def r2():
-        loop = find_loop(f_col["body"])
+        body = f_col["body"]
+        loop = find_loop(body)
         site = F.loc(loop)
-        recvs = [n for n in T.walk(loop) if T.is_call(n) and "crossbeam_channel" in n["f"] and n["n"] in ("recv", "try_recv", "recv_timeout", "recv_deadline", "try_iter", "iter", "into_iter")]
+        recvs = [n for n in T.walk(body) if T.is_call(n) and "crossbeam_channel" in (n.get("f") or "") and n["n"] in ("recv", "try_recv", "recv_timeout", "recv_deadline", "try_iter", "iter", "into_iter")]
         run.check("R2", "blocking-recv", bool(recvs) and all(n["n"] in ("recv", "iter", "into_iter") for n in recvs),
                   "the collector must receive with the blocking recv(): try_recv/timeouts return before messages that were already sent become visible; found %s" % [n["n"] for n in recvs], site)
-        # exits
-        exits = T.paths_to(loop, lambda n: n.get("k") in ("Break", "Return"))
+        # a `for m in receiver.iter()` loop ends exactly when the channel is disconnected; only exits written in its body count
+        user = loop
+        is_for = False
+        for (fn_, pat, it, lb) in T.for_loops(body):
+            if any(x is loop for x in T.walk(fn_)) and not any(x is fn_ for x in T.walk(loop)):
+                iters = [x for x in T.walk(it) if T.is_call(x) and "crossbeam_channel" in (x.get("f") or "")]
+                if iters:
+                    user, is_for = lb, True
+                    # adaptors that end the iteration early
+                    cut = [x for x in T.walk(it) if T.is_call(x, ("take", "take_while", "skip", "skip_while", "step_by", "filter", "map_while", "filter_map"))]
+                    run.check("R2", "for-loop-over-all-messages", not cut, "the receive loop must see every message; the iterator is restricted by %s" % [x["n"] for x in cut], site)
+        exits = T.paths_to(user, lambda n: n.get("k") in ("Break", "Return"))
         sy = S.Sym(F)
         env = {}
         sy.term(f_col["body"], env)
         nbad = 0
-        kinds = []
+        kinds = ["disconnected"] if is_for else []
         for node, conds in exits:
             why = None
             for cd in conds:
@@ -113,80 +154,216 @@ def run(run):
                     names = T.pat_variant_names(cd[2]["p"])
                     if names == {"Terminate"}:
                         why = "terminate"
+                    scr = T.peel(cd[1]["e"])
+                    if T.is_call(scr, "recv") and names and names <= {"Err"}:
+                        why = "disconnected"
+                    if T.is_call(scr, "recv") and T.pat_peel(cd[2]["p"]).get("k") == "Wild" and any(T.pat_variant_names(a["p"]) == {"Ok"} for a in cd[1]["arms"]):
+                        why = "disconnected"
                 if cd[0] == "if":
                     ct = sy.ev(cd[1], env)
                     if ct[0] == "let" and is_call(ct[2], "recv") and ct[1].startswith("Ok") and cd[2] is False:
                         why = "disconnected"
                     if ct[0] == "let" and is_call(ct[2], "recv") and ct[1].startswith("Err") and cd[2] is True:
                         why = "disconnected"
-            if cd and why is None:
+                if cd[0] == "letelse" and cd[2] is False:
+                    i_ = T.peel(cd[1].get("i", {}))
+                    if T.is_call(i_, "recv") and T.pat_variant_names(cd[1]["p"]) == {"Ok"}:
+                        why = "disconnected"
+            if why is None:
                 nbad += 1
             kinds.append(why)
         run.check("R2", "exits-only-on-terminate-or-disconnect", nbad == 0 and "terminate" in kinds, "the receive loop may only be left when Terminate arrives or the channel is disconnected; exit reasons found: %s" % kinds, site)
-        conts = [n for n in T.walk(loop) if n.get("k") == "Continue"]
+        conts = [n for n in T.walk(user) if n.get("k") == "Continue"]
         run.check("R2", "no-message-skipped", not conts, "a `continue` in the receive loop drops the message just received", site)
 
     run.guarded("R2", r2)
 
+    def pat_binds(p):
+        """[(bind id, how)] how = 'slice-first' for the first prefix element of a slice pattern, else 'plain'"""
+        out = []
+
+        def rec(q, how):
+            k = q.get("k")
+            if k == "Bind":
+                out.append((q["id"], how))
+                if "sub" in q:
+                    rec(q["sub"], how)
+            elif k in ("Deref", "Guard"):
+                rec(q["p"], how)
+            elif k == "Slice":
+                for i, e in enumerate(q.get("pre", [])):
+                    rec(e, "slice-first" if i == 0 else "slice-other")
+                for e in q.get("suf", []):
+                    rec(e, "slice-other")
+                if "mid" in q:
+                    rec(q["mid"], "slice-other")
+            elif k == "Or":
+                for e in q["ps"]:
+                    rec(e, how)
+            else:
+                for s_ in q.get("sub", []) if isinstance(q.get("sub"), list) else []:
+                    rec(s_["p"] if "p" in s_ else s_, how)
+        rec(p, "plain")
+        return out
+
+    def binder(root, vid):
+        """(source expression, how) of the construct in root that binds local vid"""
+        for x in T.walk(root):
+            k = x.get("k")
+            if k == "LetStmt" and "i" in x:
+                for i, how in pat_binds(x["p"]):
+                    if i == vid:
+                        return x["i"], how
+            if k == "Let":
+                for i, how in pat_binds(x["p"]):
+                    if i == vid:
+                        return x["e"], how
+            if k == "Match":
+                for a in x["arms"]:
+                    for i, how in pat_binds(a["p"]):
+                        if i == vid:
+                            return x["e"], how
+        return None, None
+
+    def key_source(root, e, depth=0):
+        """expressions the key `e` is made of, following local bindings: list of (expr, how)"""
+        out = [(e, "plain")]
+        seen = set()
+        work = [e]
+        while work and len(out) < 12:
+            cur = work.pop()
+            for x in T.walk(cur):
+                if x.get("k") in ("Var", "Upvar") and x["id"] not in seen:
+                    seen.add(x["id"])
+                    src, how = binder(root, x["id"])
+                    if src is not None:
+                        out.append((src, how))
+                        work.append(src)
+        return out
+
+    def mentions_field(e, fname):
+        return any(x.get("k") == "Field" and x.get("fn") == fname for x in T.walk(e))
+
     def r3():
-        loop = find_loop(f_col["body"])
+        body = f_col["body"]
+        loop = find_loop(body)
         ms = T.find_matches(loop, adt_suffix="LogThreadMsg")
-        if not ms:
-            raise T.AnchorMissing("no match over LogThreadMsg in collect_and_deduplicate")
         m = ms[0]
         adt = F.adt("utils::log::LogThreadMsg")
-        sy = S.Sym(F)
-        env = {}
-        sy.term(f_col["body"], env)
         for v in F.variants(adt):
             arms = T.arms_for_variant(m, v)
             if not arms:
                 run.violated("R3", "arm|%s" % v, "no arm for LogThreadMsg::%s" % v, F.loc(m))
-        # Log arm
+        STORE = ("push", "insert", "entry", "or_insert", "or_insert_with", "push_front", "extend", "try_insert", "push_back", "append")
+        # Log arm: every storing operation is classified by the decision on `location` under which it runs
         arm = T.arms_for_variant(m, "Log")[0]
-        ops = [(n, conds) for n, conds in T.paths_to(arm["b"], lambda n: T.is_call(n, ("push", "insert", "entry", "or_insert", "or_insert_with", "push_front", "extend", "try_insert")))]
-        located, general = [], []
+        ops = T.paths_to(arm["b"], lambda n: T.is_call(n, STORE))
+        located, general, unknown = [], [], []
         for n, conds in ops:
-            loc_pol = None
+            pol = None
             for cd in conds:
                 if cd[0] == "if":
-                    ct = sy.ev(cd[1], env)
-                    if ct[0] == "let" and any(isinstance(y, tuple) and y and y[0] == "field" and y[2] == "location" for y in S.subterms(ct[2])):
-                        loc_pol = (cd[2] is True) == ct[1].startswith("Some")
-                    if is_call(ct, ("is_some", "is_none")) and any(isinstance(y, tuple) and y and y[0] == "field" and y[2] == "location" for y in S.subterms(ct)):
-                        loc_pol = (cd[2] is True) == (ct[1] == "is_some")
-            (located if loc_pol else general).append(n)
+                    c = T.peel(cd[1])
+                    if c.get("k") == "Let" and mentions_field(c["e"], "location"):
+                        names = T.pat_variant_names(c["p"])
+                        if names in ({"Some"}, {"None"}):
+                            pol = (cd[2] is True) == (names == {"Some"})
+                    if T.is_call(c, ("is_some", "is_none")) and mentions_field(c, "location"):
+                        pol = (cd[2] is True) == (c["n"] == "is_some")
+                if cd[0] == "arm" and mentions_field(cd[1]["e"], "location"):
+                    names = T.pat_variant_names(cd[2]["p"])
+                    if names == {"Some"}:
+                        pol = True
+                    elif names == {"None"}:
+                        pol = False
+                    elif T.pat_peel(cd[2]["p"]).get("k") in ("Wild", "Bind"):
+                        others = set()
+                        for a in cd[1]["arms"]:
+                            if a is not cd[2]:
+                                others |= T.pat_variant_names(a["p"]) or set()
+                        if others == {"Some"}:
+                            pol = False
+                        elif others == {"None"}:
+                            pol = True
+                if cd[0] == "letelse" and "i" in cd[1] and mentions_field(cd[1]["i"], "location"):
+                    names = T.pat_variant_names(cd[1]["p"])
+                    if names in ({"Some"}, {"None"}):
+                        pol = (cd[2] is True) == (names == {"Some"})
+            (located if pol is True else general if pol is False else unknown).append(n)
         site = F.loc(arm["b"])
-        run.check("R3", "log|general-pushed-in-order", len(general) == 1 and general[0]["n"] == "push" and "Vec" in general[0]["f"], "a log message without location must be appended to a Vec (send order); found %s" % [g["n"] for g in general], site)
-        ok = len(located) == 1 and located[0]["n"] == "insert" and "BTreeMap" in located[0]["f"]
-        keyt = sy.ev(located[0]["a"][1], env) if located else None
-        key_ok = keyt is not None and any(isinstance(y, tuple) and y and y[0] == "field" and y[2] == "address" for y in S.subterms(keyt)) and any(isinstance(y, tuple) and y and y[0] == "field" and y[2] == "location" for y in S.subterms(keyt))
-        run.check("R3", "log|located-last-wins-by-address", ok and key_ok, "a log message with location must be stored with BTreeMap::insert keyed by its address (the last one sent wins); found %s key %s" % ([g["n"] for g in located], fmt(keyt) if keyt else None), site)
+        if unknown or not ops:
+            run.undecided("R3", "log|storage", "storing operations in the Log arm that are not under a decision on `location`: %s" % [T.show(n, F)[:80] for n in unknown], site)
+        else:
+            run.check("R3", "log|general-pushed-in-order", len(general) == 1 and general[0]["n"] == "push" and "Vec" in general[0]["f"], "a log message without location must be appended to a Vec (send order); found %s" % [g["n"] for g in general], site)
+            ok = len(located) == 1 and located[0]["n"] == "insert" and "BTreeMap" in located[0]["f"]
+            key_ok = False
+            if located and len(located[0]["a"]) > 1:
+                srcs = key_source(arm["b"], located[0]["a"][1])
+                key_ok = any(mentions_field(e, "address") for e, h in srcs) and any(mentions_field(e, "location") for e, h in srcs)
+            run.check("R3", "log|located-last-wins-by-address", ok and key_ok, "a log message with location must be stored with BTreeMap::insert keyed by its address (the last one sent wins); found %s key %s" % ([g["n"] for g in located], T.show(located[0]["a"][1], F)[:80] if located and len(located[0]["a"]) > 1 else None), site)
         # Cwe arm
         arm = T.arms_for_variant(m, "Cwe")[0]
-        ins = [n for n in T.walk(arm["b"]) if T.is_call(n, ("push", "insert", "entry", "or_insert", "or_insert_with", "try_insert"))]
+        ins = [n for n in T.walk(arm["b"]) if T.is_call(n, STORE)]
         ok = len(ins) == 1 and ins[0]["n"] == "insert" and "BTreeMap" in ins[0]["f"]
-        keyt = sy.ev(ins[0]["a"][1], env) if ins else None
-        valt = sy.ev(ins[0]["a"][2], env) if ins and len(ins[0]["a"]) > 2 else None
-        key_ok = keyt is not None and any(isinstance(y, tuple) and y and y[0] == "field" and y[2] == "addresses" for y in S.subterms(keyt))
-        first = keyt is not None and (keyt[0] == "index" and keyt[2] == ("lit", 0) or is_call(keyt, "first") or any(is_call(y, "first") for y in S.subterms(keyt)))
-        run.check("R3", "cwe|last-wins-by-first-address", ok and key_ok and first, "a warning must be stored with BTreeMap::insert keyed by its first address (last one sent wins); found %s key %s" % ([g["n"] for g in ins], fmt(keyt) if keyt else None), F.loc(arm["b"]))
-        # the general log vector is not reordered, all containers reach the result
-        t = sy.term(f_col["body"], {})
+        key_ok = first = False
+        if ins and len(ins[0]["a"]) > 1:
+            srcs = key_source(arm["b"], ins[0]["a"][1])
+            key_ok = any(mentions_field(e, "addresses") for e, h in srcs)
+            for e, h in srcs:
+                if h == "slice-first" and mentions_field(e, "addresses"):
+                    first = True
+                for x in T.walk(e):
+                    if T.is_call(x, "first") and mentions_field(x, "addresses"):
+                        first = True
+                    if (x.get("k") == "Index" and mentions_field(x["l"], "addresses") and str(T.peel(x["r"]).get("v")) == "0") or (T.is_call(x, "index") and len(x["a"]) == 2 and mentions_field(x["a"][0], "addresses") and str(T.peel(x["a"][1]).get("v")) == "0"):
+                        first = True
+                    if T.is_call(x, "next") and mentions_field(x, "addresses") and not any(T.is_call(y, ("rev", "skip", "next_back", "last")) for y in T.walk(x)):
+                        first = True
+        run.check("R3", "cwe|last-wins-by-first-address", ok and key_ok and first, "a warning must be stored with BTreeMap::insert keyed by its first address (last one sent wins); found %s key %s" % ([g["n"] for g in ins], T.show(ins[0]["a"][1], F)[:80] if ins and len(ins[0]["a"]) > 1 else None), F.loc(arm["b"]))
+        # the collecting containers: locals that receive a storing operation in the loop
         names = {}
-        for n in T.walk(f_col["body"]):
-            if n.get("k") == "LetStmt" and "i" in n and T.pat_peel(n["p"]).get("k") == "Bind":
-                it = T.peel(n["i"])
-                if T.is_call(it, "new"):
-                    names[T.pat_peel(n["p"])["id"]] = T.pat_peel(n["p"])["n"]
-        vec_ids = [i for i, nme in names.items()]
-        reorder = [n for n in T.walk(f_col["body"]) if T.is_call(n, ("sort", "sort_by", "sort_by_key", "sort_unstable", "dedup", "dedup_by", "dedup_by_key", "reverse", "retain", "truncate", "clear", "pop", "remove", "swap_remove", "drain")) and n["a"] and T.root_var_id(n["a"][0]) in vec_ids]
-        run.check("R3", "containers-not-reordered-or-pruned", not reorder, "a collecting container is sorted/deduplicated/pruned before it is returned: %s" % [n["n"] + "(" + T.show(n["a"][0]) + ")" for n in reorder], F.loc(f_col["body"]))
-        res = S.value(t)
-        used = {x[2] for x in S.subterms(res) if isinstance(x, tuple) and x and x[0] == "var"}
-        missing = [nme for i, nme in names.items() if i not in used]
-        run.check("R3", "all-containers-returned", not missing and len(names) >= 3, "containers %s do not reach the returned value (messages stored there are lost)" % missing, F.loc(f_col["body"]))
-        # general logs keep their order in the result: general_logs is chained/extended, not collected through a set/map
+        for n in T.walk(loop):
+            if T.is_call(n, STORE) and n.get("a"):
+                vid = T.root_var_id(n["a"][0])
+                if vid is not None:
+                    names[vid] = T.show(n["a"][0], F).lstrip("&mut ").strip()
+        vec_ids = list(names)
+        reorder = [n for n in T.walk(body) if T.is_call(n, ("sort", "sort_by", "sort_by_key", "sort_unstable", "dedup", "dedup_by", "dedup_by_key", "reverse", "retain", "truncate", "clear", "pop", "remove", "swap_remove", "drain")) and n["a"] and T.root_var_id(n["a"][0]) in vec_ids]
+        run.check("R3", "containers-not-reordered-or-pruned", not reorder, "a collecting container is sorted/deduplicated/pruned before it is returned: %s" % [n["n"] + "(" + T.show(n["a"][0]) + ")" for n in reorder], F.loc(body))
+        # every container flows into the returned value: forward closure of "is used to build" over the statements after the loop
+        flows = {i: {i} for i in names}     # container -> locals that (transitively) hold its content
+        after = []
+        seen_loop = False
+        top = T.peel(body)
+        stmts = list(top.get("ss", [])) + ([top["e"]] if top.get("e") is not None else []) if top.get("k") == "Block" else [top]
+        for s_ in stmts:
+            if any(x is loop for x in T.walk(s_)):
+                seen_loop = True
+                continue
+            if seen_loop:
+                after.append(s_)
+        tail = after[-1] if after else None
+        for s_ in after:
+            used = {x["id"] for x in T.walk(s_) if x.get("k") in ("Var", "Upvar")}
+            targets = set()
+            sp = T.peel(s_)
+            if sp.get("k") == "LetStmt":
+                targets |= {i for i, h in pat_binds(sp["p"])}
+            for x in T.walk(s_):
+                if T.is_call(x, ("extend", "append", "push", "insert", "extend_from_slice")) and x.get("a"):
+                    r = T.root_var_id(x["a"][0])
+                    if r is not None:
+                        targets.add(r)
+                if x.get("k") == "Assign":
+                    r = T.root_var_id(x["l"])
+                    if r is not None:
+                        targets.add(r)
+            for i in flows:
+                if flows[i] & used:
+                    flows[i] |= targets
+        tail_used = {x["id"] for x in T.walk(tail) if x.get("k") in ("Var", "Upvar")} if tail is not None else set()
+        missing = [nme for i, nme in names.items() if not (flows[i] & tail_used)]
+        run.check("R3", "all-containers-returned", not missing and len(names) >= 3, "containers %s do not reach the returned value (messages stored there are lost)" % missing, F.loc(body))
         run.floor("collecting containers", len(names), 3)
 
     run.guarded("R3", r3)
